@@ -1,6 +1,7 @@
 package dbsim
 
 import (
+	"errors"
 	"fmt"
 	"runtime"
 	"strings"
@@ -9,6 +10,7 @@ import (
 	"time"
 
 	"github.com/anishathalye/porcupine"
+	NoKV "github.com/feichai0017/NoKV"
 
 	"verif/sim"
 )
@@ -68,10 +70,36 @@ func genPlainC(r *sim.Rand, tier, prop string) *sim.Case {
 			c.Ops = append(c.Ops, sim.Op{K: "bg", A: int64(r.Intn(60)), S: r.PickS("drain", "drain", "l0move", "rotate", "compactonce", "lmax")})
 		}
 	}
+	// Disk-error variant (C37, 1 in 3 of the runs without background tasks): one file
+	// operation fails once, either a WAL write (tiny WAL buffer, so appends reach the
+	// file inside a commit) or the growing of a value-log segment (after a first life
+	// and a clean reopen the active segment is trimmed to its end, so the next append
+	// has to extend the file). The call that meets the error may report it; every
+	// call, the later ones included, and Close still have to return.
+	if prop == "C37" && !bg && r.Intn(3) == 0 {
+		c.Cfg["io_fail_nth"] = int64(1 + r.Intn(3))
+		c.Cfg["io_fail_kind"] = int64(r.Intn(2))
+		if c.Cfg["io_fail_kind"] == 0 {
+			c.Cfg["wal_buffer"] = r.Pick64(16, 64, 256)
+		} else {
+			c.Cfg["value_threshold"] = 32
+			c.Cfg["io_fail_nth"] = 1
+		}
+		c.Cfg["io_api"] = int64(r.Intn(2)) // 0: transactions only, 1: plain and transactional calls
+	}
+	ioTxnOnly := c.Cfg["io_fail_nth"] > 0 && c.Cfg["io_api"] == 0
 	for t := 0; t < ntasks; t++ {
 		n := 2 + r.Intn(5)
 		for i := 0; i < n; i++ {
 			k := int64(r.Intn(nkeys))
+			if ioTxnOnly {
+				if r.Intn(3) == 0 {
+					c.Ops = append(c.Ops, sim.Op{K: "pget", A: int64(t), B: k})
+				} else {
+					c.Ops = append(c.Ops, sim.Op{K: "txn", A: int64(t), B: 1, S: fmt.Sprintf("g:%d,s:%d:%d,i:0", k, k, 5+r.Intn(35))})
+				}
+				continue
+			}
 			x := r.Intn(10)
 			if bg && x < 5 && r.Intn(3) != 0 {
 				x = 6 // read-mostly: a fresh write in the memtable would hide the levels below
@@ -117,9 +145,46 @@ func execPlainC(t *testing.T, c *sim.Case, prop string) (res *sim.Result) {
 		if c.CfgInt("bg", 0) == 1 {
 			ignore = []string{"skiplist.", "art."} // the flush worker is a scheduled task too
 		}
+		ioNth := int(c.CfgInt("io_fail_nth", 0))
+		if ioNth > 0 && c.CfgInt("io_fail_kind", 0) == 1 {
+			// first life: a few out-of-line values, then a clean close
+			if err := w.Open(w.Dir); err != nil {
+				res.Violate(0, "open_failed", nil, "%v", err)
+				return
+			}
+			for i := 0; i < 3; i++ {
+				_ = w.DB.Update(func(txn *NoKV.Txn) error {
+					return txn.Set([]byte(fmt.Sprintf("first-life-%d", i)), []byte(strings.Repeat("f", 100+i)))
+				})
+				synctest.Wait()
+			}
+			if err := w.Close(); err != nil {
+				res.Violate(0, "close_error", nil, "first life: %v", err)
+				return
+			}
+		}
 		if err := m.open(ignore...); err != nil {
 			res.Violate(0, "open_failed", nil, "%v", err)
 			return
+		}
+		if ioNth > 0 {
+			failOp, failClass := "write", "wal"
+			if c.CfgInt("io_fail_kind", 0) == 1 {
+				failOp, failClass = "truncate", "vlog"
+			}
+			seen := 0
+			w.FS.Fail = func(ev sim.FSEvent) error {
+				if ev.Op != failOp || ev.Class != failClass {
+					return nil
+				}
+				seen++
+				if seen != ioNth {
+					return nil
+				}
+				res.Faults["io_error_"+failClass+"_"+failOp]++
+				m.ioFailed = true
+				return errors.New("verif: injected disk error (" + failClass + " " + failOp + ")")
+			}
 		}
 		ntasks := int(c.CfgInt("tasks", 2))
 		scripts := make([][]sim.Op, ntasks)
